@@ -333,6 +333,10 @@ CallErr(D, ctx, key, op) ==
     LET tgt == Resolve(D, ctx, op[2]) IN
     IF tgt = NoObj THEN ErrName
     ELSE IF IsDead(tgt) THEN ErrDeleted
+    \* calling a space: without a parameter formula there is nothing to call
+    \* (AttributeError); with one the result is a space, which is not a number
+    ELSE IF tgt[1] = "sp" /\ BaseOf(D, tgt[2], tgt[3]) \in D.sp
+            /\ BaseOf(D, tgt[2], tgt[3]) \notin DOMAIN D.pf THEN ErrName
     ELSE IF tgt[1] # "ce" THEN ErrType
     ELSE LET crec == CellRecOf(D, <<tgt[2], tgt[3]>>, tgt[4])
              vals == [i \in 1..Len(op[3]) |-> ArgVal(op[3][i], key)] IN
